@@ -6,7 +6,7 @@ run the registered check(s) against them. For each change k:
   3. store /verif/seeded/<Cxx>-<k>/{patch.diff, demo*, meta.json} with what was run and what the checks said.
 """
 import json, os, shutil, subprocess, sys, glob, re
-ENV = dict(os.environ, GOFLAGS="-mod=mod", GOPROXY="off", GOSUMDB="off", GOTOOLCHAIN="local")
+ENV = dict(os.environ, VERIF_SEARCH_SEEDS=os.environ.get("VERIF_SEARCH_SEEDS", "1"), GOFLAGS="-mod=mod", GOPROXY="off", GOSUMDB="off", GOTOOLCHAIN="local")
 def sh(cmd, cwd, timeout=1800):
     r = subprocess.run(cmd, shell=True, cwd=cwd, env=ENV, capture_output=True, text=True, timeout=timeout)
     return r.returncode, (r.stdout + r.stderr)
